@@ -38,8 +38,8 @@ const (
 
 // Case: the generation parameters (enough to re-run it) and what was observed.
 type Case struct {
-	Kind    string `json:"kind"`    // life | nbf | exp | other | overflow | longidle | nopong
-	Mode    string `json:"mode"`    // idle | busy | stall | ignoreclose
+	Kind    string `json:"kind"`    // life | nbf | exp | other | overflow | longidle | nopong | quiet
+	Mode    string `json:"mode"`    // idle | busy | stall | ignoreclose | silent | onemsg | talker
 	PhaseMs int    `json:"phase"`   // admission instant within its second
 	NbfOff  int64  `json:"nbf_off"` // nbf = s0 + NbfOff  (s0 = the admission second)
 	ExpOff  int64  `json:"exp_off"` // exp = s0 + ExpOff
@@ -48,24 +48,29 @@ type Case struct {
 	WatchS  int64  `json:"watch_s"` // 0 = until exp + 2.2 s ; else seconds after admission
 
 	// observed (absolute ns / s)
-	TLo        int64  `json:"t_lo"`
-	THi        int64  `json:"t_hi"`
-	Nbf        int64  `json:"nbf"`
-	Exp        int64  `json:"exp"`
-	WatchUntil int64  `json:"watch_until"`
-	Accepted   bool   `json:"accepted"`
-	Dropped    int64  `json:"dropped"`         // server removed the connection at (0 = not seen)
-	ClientErr  int64  `json:"client_err"`      // the client's read failed at (0 = not seen / not reading)
-	SockClosed bool   `json:"sock_closed"`     // after the watch the socket answered a read with an error, not a timeout
-	LastFrom   int64  `json:"last_from_probe"` // partner last received a probe message at
-	LastTo     int64  `json:"last_to_probe"`   // probe last received a partner message at
-	Note       string `json:"note,omitempty"`
+	TLo        int64   `json:"t_lo"`
+	THi        int64   `json:"t_hi"`
+	Nbf        int64   `json:"nbf"`
+	Exp        int64   `json:"exp"`
+	WatchUntil int64   `json:"watch_until"`
+	Accepted   bool    `json:"accepted"`
+	Dropped    int64   `json:"dropped"`         // server removed the connection at (0 = not seen)
+	ClientErr  int64   `json:"client_err"`      // the client's read failed at (0 = not seen / not reading)
+	SockClosed bool    `json:"sock_closed"`     // after the watch the socket answered a read with an error, not a timeout
+	LastFrom   int64   `json:"last_from_probe"` // partner last received a probe message at
+	LastTo     int64   `json:"last_to_probe"`   // probe last received a partner message at
+	DataAt     []int64 `json:"data_at"`         // when messages were delivered to the probe (at most 200 kept)
+	Note       string  `json:"note,omitempty"`
 }
 
 func (c Case) coq() string {
 	closed := lib.OptionOf(c.Dropped != 0, lib.Z(c.Dropped))
+	data := make([]string, len(c.DataAt))
+	for i, d := range c.DataAt {
+		data[i] = lib.Z(d)
+	}
 	return lib.App("mkcase", lib.Z(c.TLo), lib.Z(c.THi), lib.Z(c.Nbf), lib.Z(c.Exp),
-		lib.Bool(c.Other == ""), lib.Bool(c.Pongs), lib.Z(c.WatchUntil), lib.Bool(c.Accepted), closed)
+		lib.Bool(c.Other == ""), lib.Bool(c.Pongs), lib.List(data), lib.Z(c.WatchUntil), lib.Bool(c.Accepted), closed)
 }
 
 // ---------------------------------------------------------------- the relay under test
@@ -169,6 +174,7 @@ func runCase(r *rig, idx int, c *Case, tag string) {
 	defer partner.Close()
 	var pmu sync.Mutex
 	var lastFrom, lastTo, clientErr int64 // written by the reader goroutines under pmu
+	var dataAt []int64
 	go func() { // partner reader: records when something from the probe arrives
 		for {
 			_, data, err := partner.ReadMessage()
@@ -267,6 +273,9 @@ func runCase(r *rig, idx int, c *Case, tag string) {
 				if len(data) > 0 && data[0] == 'S' {
 					pmu.Lock()
 					lastTo = time.Now().UnixNano()
+					if len(dataAt) < 200 {
+						dataAt = append(dataAt, lastTo)
+					}
 					pmu.Unlock()
 				}
 			}
@@ -296,7 +305,19 @@ func runCase(r *rig, idx int, c *Case, tag string) {
 			pwrite([]byte("P" + strconv.Itoa(k)))
 			time.Sleep(100 * time.Millisecond)
 		}
-	default: // idle: one exchange well after the expiry only
+	case "onemsg":
+		// one message delivered about a second after joining, then nothing: the socket is left
+		// with the write deadline of that one data write
+		time.Sleep(time.Until(time.Unix(0, c.TLo+sec)))
+		psend([]byte("S-once"))
+		time.Sleep(time.Until(until))
+	case "talker":
+		// a message every second for the whole watch
+		for k := 0; time.Now().Before(until); k++ {
+			psend([]byte("S" + strconv.Itoa(k)))
+			time.Sleep(time.Second)
+		}
+	default: // idle / silent: one exchange well after the expiry only
 		probeAt := time.Unix(0, satNs(c.Exp)+1600*int64(time.Millisecond))
 		if c.Kind == "life" && probeAt.Before(until) {
 			time.Sleep(time.Until(probeAt))
@@ -328,7 +349,7 @@ func runCase(r *rig, idx int, c *Case, tag string) {
 		pmu.Unlock()
 	}
 	pmu.Lock()
-	c.LastFrom, c.LastTo, c.ClientErr = lastFrom, lastTo, clientErr
+	c.LastFrom, c.LastTo, c.ClientErr, c.DataAt = lastFrom, lastTo, clientErr, append([]int64{}, dataAt...)
 	pmu.Unlock()
 }
 
@@ -370,6 +391,16 @@ func gen(rng *lib.Rng, tier string, n int) []Case {
 		Case{Kind: "overflow", Mode: "busy", PhaseMs: 200, NbfOff: -1, ExpOff: 9223372037, Pongs: true, WatchS: 3},
 		Case{Kind: "overflow", Mode: "idle", PhaseMs: 700, NbfOff: -1, ExpOff: 9223372036, Pongs: true, WatchS: 3},
 	)
+	// one long scenario next to everything else: three connections with 300 s tokens joined at the
+	// start - silent, one message received at t = 1 s then quiet, a talker - must all still be
+	// joined after the first ping (54 s); thorough: after the second one too (108 s)
+	w := int64(57)
+	if tier == "thorough" {
+		w = 116
+	}
+	for _, m := range []string{"silent", "onemsg", "talker"} {
+		cs = append(cs, Case{Kind: "quiet", Mode: m, PhaseMs: 300, NbfOff: -1, ExpOff: 300, Pongs: true, WatchS: w})
+	}
 	if tier == "thorough" {
 		cs = append(cs,
 			Case{Kind: "longidle", Mode: "idle", PhaseMs: 500, NbfOff: -1, ExpOff: 3600, Pongs: true, WatchS: 130},
@@ -413,6 +444,17 @@ func oracle(c Case, idx int, res *lib.Result) {
 	if !c.Accepted {
 		if c.Other == "" && c.Nbf <= c.TLo/sec && c.THi/sec < c.Exp {
 			bad("valid-token-refused", "a code for a currently valid token was refused")
+		}
+		return
+	}
+	if c.Kind == "quiet" {
+		// the client reads, answers every ping, nobody cancelled, the token has minutes left
+		if c.Dropped != 0 && c.Dropped < E-earlyTol {
+			what := map[string]string{"silent": "silent", "onemsg": "quiet-after-traffic", "talker": "talker"}[c.Mode]
+			clause := "closed-before-expiry:" + what
+			res.Violate(lib.Violation{Clause: clause, Case: idx, Key: clause, Replay: c,
+				Detail: fmt.Sprintf("%s connection with a 300 s token, client answering pings: the relay itself closed it %.1f s after it joined (%.0f s before its expiry); messages delivered to it before: %d",
+					c.Mode, float64(c.Dropped-c.TLo)/1e9, float64(E-c.Dropped)/1e9, len(c.DataAt))})
 		}
 		return
 	}
@@ -471,24 +513,39 @@ func main() {
 	})
 	defer watchdog.Stop()
 
-	// waves of at most 32 parallel cases keep the relay (and the clock) unloaded
-	const wave = 32
-	for lo := 0; lo < len(cases); lo += wave {
-		hi := lo + wave
-		if hi > len(cases) {
-			hi = len(cases)
-		}
-		var wg sync.WaitGroup
-		for i := lo; i < hi; i++ {
-			wg.Add(1)
+	// the long cases (watched for 50 s or more) run beside everything else from the start
+	var longWg sync.WaitGroup
+	var short []int
+	for i := range cases {
+		if cases[i].WatchS >= 50 || cases[i].ExpOff >= 50 && cases[i].ExpOff < 1000 {
+			longWg.Add(1)
 			go func(i int) {
-				defer wg.Done()
-				time.Sleep(time.Duration(i-lo) * 7 * time.Millisecond)
+				defer longWg.Done()
 				runCase(r, i, &cases[i], strconv.FormatInt(a.Seed, 10))
 			}(i)
+		} else {
+			short = append(short, i)
+		}
+	}
+	// waves of at most 32 parallel cases keep the relay (and the clock) unloaded
+	const wave = 32
+	for lo := 0; lo < len(short); lo += wave {
+		hi := lo + wave
+		if hi > len(short) {
+			hi = len(short)
+		}
+		var wg sync.WaitGroup
+		for n := lo; n < hi; n++ {
+			wg.Add(1)
+			go func(n int) {
+				defer wg.Done()
+				time.Sleep(time.Duration(n-lo) * 7 * time.Millisecond)
+				runCase(r, short[n], &cases[short[n]], strconv.FormatInt(a.Seed, 10))
+			}(n)
 		}
 		wg.Wait()
 	}
+	longWg.Wait()
 
 	coq := make([]string, len(cases))
 	for i, c := range cases {
